@@ -245,7 +245,9 @@ def check(run: Run) -> None:
     with run.obligation("C13.e", "K1", "cross-boundary retarget notifications are clamped to the parent's current time (shared with C09.b)"):
         from . import c09
         sub = Run("C13", run.tier, run.tree, quiet=True)
-        c09.check(sub)
+        sub.is_sub = True
+        if not getattr(run, "is_sub", False):
+            c09.check(sub)
         run.evaluations += sub.evaluations
         run.count(1, "C13.e")
         for f in sub.findings:
